@@ -304,6 +304,17 @@ func (g *gen) node(d int, inSnippet bool) {
 		g.eol()
 	case 3:
 		g.f("one-line-block")
+		if g.hostile && g.p.Chance(1, 5) {
+			// a declaration as the only content of a one-line block
+			g.f("one-line-block-with-declaration")
+			if g.p.Bool() {
+				g.b.WriteString(" { $(" + prng.Pick(g.p, macroNames) + ") = " + prng.Pick(g.p, plainArgs) + " }")
+			} else {
+				g.b.WriteString(" { (" + prng.Pick(g.p, snippetNames) + ") }")
+			}
+			g.eol()
+			return
+		}
 		g.b.WriteString(" { " + prng.Pick(g.p, nameWords))
 		if g.p.Bool() {
 			g.b.WriteString(" " + prng.Pick(g.p, plainArgs))
@@ -712,11 +723,14 @@ var macroDeclForms = []string{
 	"$(m) = \"x y\"\n", "$(m) = {env:C20_A}\n", "$(m) = }\n", "$(m) = \"}\" x\n", "$(m) = { }\n", "$(m) =\n", "$(m) v\n", "$(m = v\n",
 	"$(n) = w\n$(m) = pre$(n)post $(n)\n", "$(m) = x$(undef)y\n", "", "$(m)\n", "$(m) = =\n", "$(m) = \\\n v\n",
 	"$($(n)) = v\n", "$($(m)) = v\nd $($(m))\n", "$(m) = v\n$() = w\nd $() x$()y\n",
+	// oddities 2 and 3: two references in one token; a reference assembled from macro values
+	"$(m) = 1\n$(r) = 2\n", "$(m) = \"$(\"\n$(r) = \")\"\n", "$(m) = \"$(\"\n$(r) = \")\"\n$(b) = B\n",
 }
 var macroUseForms = []string{
 	"d $(m)\n", "d pre$(m)\n", "d $(m)post\n", "d a$(m)b$(m)c\n", "d \"q $(m) q\"\n", "$(m) d\n", "d$(m) v\n", "b {\n c $(m)\n e {\n  f x$(m)\n }\n}\n",
 	"(s) {\n g $(m) z$(m)\n}\nh {\n import s\n}\n", "import $(m)\n", "d $(m) $(m)\n", "d {env:C20_A}$(m)\n", "d $(m){env:C20_A}\n", "d $(m) {\n k\n}\n", "d v $(m) }\n",
 	"d \\\n $(m)\n", "d $(m)$(m)\n", "d ($(m))\n",
+	"d $(m):$(r)\n", "d $(m)$(r)\n", "d x$(m):$(r)\n", "x q$(m)b$(r)\n", "blk {\n x q$(m)b$(r)\n}\n", "blk {\n in {\n  x q$(m)b$(r)\n }\n}\n",
 }
 
 var lexAlphabet = []string{"s", " ", "\"", "\\", "\n", "{", "}", "#", "$(m)", "(s)", "=", "import"}
